@@ -95,7 +95,14 @@ def local_defs(func, inl=None):
             if enclosing(x, ('ForStmt', 'WhileStmt', 'DoStmt', 'CXXForRangeStmt')) is not None and False:
                 continue
             init = kids(x)[-1]
-            if any(c.get('kind') in ('CallExpr', 'CXXMemberCallExpr', 'CXXOperatorCallExpr') and (call_name(c) or '') not in ('min', 'max', 'size', 'length', 'remaining', 'where', 'operator[]', 'at', 'data', 'c_str') and not (call_name(c) or '').startswith('operator ') for c in walk(init)):
+            def _observer(c):
+                # a const member function without arguments (get_width(), size(), ...)
+                if c.get('kind') != 'CXXMemberCallExpr' or call_args(c):
+                    return False
+                m_ = strip(kids(c)[0])
+                from path import _method_is_const
+                return m_.get('kind') == 'MemberExpr' and _method_is_const(m_)
+            if any(c.get('kind') in ('CallExpr', 'CXXMemberCallExpr', 'CXXOperatorCallExpr') and (call_name(c) or '') not in ('min', 'max', 'size', 'length', 'remaining', 'where', 'operator[]', 'at', 'data', 'c_str') and not (call_name(c) or '').startswith('operator ') and not _observer(c) for c in walk(init)):
                 continue     # only pure arithmetic over parameters / fields / observers
             s = canon(init)
             if inl is not None:
